@@ -71,8 +71,13 @@ def call_src(case, macro_body: str) -> tuple[str, str]:
     if mode == "render_for":
         return "", "{% render 'p' for gl as " + case["alias"] + (", " + lit_args if lit_args else "") + " %}"
     if mode == "macro":
-        params = ", ".join(k for k, _ in case["args"])
-        vals = ", ".join(f"'{v}'" for _, v in case["args"])
+        # parameters the call passes, then parameters it omits (with or without a default)
+        plist = [k for k, _ in case["args"]] + [k if d is None else f"{k}: '{d}'" for k, d in case.get("omitted", [])]
+        params = ", ".join(plist)
+        if case.get("kwcall"):
+            vals = ", ".join(f"{k}: '{v}'" for k, v in case["args"])
+        else:
+            vals = ", ".join(f"'{v}'" for _, v in case["args"])
         return "{% macro m " + params + " %}" + macro_body + "{% endmacro %}", "{% call m " + vals + " %}"
     raise core.HarnessError(mode)
 
@@ -86,6 +91,22 @@ def build(case, prelude, *, with_assigns: bool = True) -> tuple[str, dict]:
     return src, {"p": body}
 
 
+VIAS = {
+    "render": "{% render 'p' %}",
+    "render_kw": "{% render 'p', a: 1 %}",
+    "render_with": "{% render 'p' with gw as a %}",
+    "render_with_noalias": "{% render 'p' with gw %}",
+    "render_for": "{% render 'p' for gl as a %}",
+    "render_for_noalias": "{% render 'p' for gl %}",
+    "render_for_kw": "{% render 'p' for gl as a, b: 2 %}",
+    "render_in_loop": "{% for i in gl %}{% render 'p' %}{% endfor %}",
+    "nested": "{% render 'outer' %}",
+    "nested_for": "{% render 'outer_for' %}",
+    "macro": "{% macro m %}$BODY{% endmacro %}{% call m %}",
+    "macro_args": "{% macro m a, b: 1 %}$BODY{% endmacro %}{% call m 2 %}",
+}
+
+
 def render(case, src: str, partials: dict):
     env = envs.make_env({"mode": "strict", "extra": True, "twice": False}, partials)
     data = dict(case["globals"])
@@ -97,9 +118,9 @@ def evaluate(case) -> Verdict:
     v = Verdict()
     if case["kind"] == "include-disabled":
         partial = case["partial"]
-        env = envs.make_env({"mode": "strict", "extra": True, "twice": False}, {"p": partial, "q": "Q"})
-        src = "{% render 'p' %}" if case["via"] == "render" else "{% macro m %}" + partial + "{% endmacro %}{% call m %}"
-        o = oc.outcome_of(lambda: env.from_string(src).render())
+        env = envs.make_env({"mode": "strict", "extra": True, "twice": False}, {"p": partial, "q": "Q", "outer": "{% render 'p' %}", "outer_for": "{% render 'p' for gl as it %}"})
+        src = VIAS[case["via"]].replace("$BODY", partial)
+        o = oc.outcome_of(lambda: env.from_string(src).render(gw="GW", gl=["L1", "L2"], one=["x"]))
         if not (o[0] == "liquid" and o[1] == "DisabledTagError"):
             v.fail(f"include-allowed:{case['via']}", f"{src!r} with p={partial!r}: {oc.short(o)!r:.150}, expected DisabledTagError")
         v.nontrivial = True
@@ -186,10 +207,15 @@ def cases(draw):
     args = [[k, r.choice(["A1", "A2"])] for k in r.sample(NAMES, r.choice([0, 1, 2]))]
     alias = r.choice(NAMES)
     glob = {k: r.choice(["G1", "G2", 5, ["g"]]) for k in r.sample(NAMES, r.randint(0, 3))}
-    return {
+    case = {
         "kind": "iso", "mode": mode, "args": args, "alias": alias, "globals": glob,
         "prelude1": _prelude(r), "prelude2": _prelude(r), "body": _body(r),
     }
+    if mode == "macro":
+        rest = [n for n in NAMES if n not in {k for k, _ in args}]
+        case["omitted"] = [[k, r.choice([None, None, "D1"])] for k in r.sample(rest, r.choice([0, 1, 2]))]
+        case["kwcall"] = r.random() < 0.3
+    return case
 
 
 DISABLED = [
@@ -201,7 +227,7 @@ DISABLED = [
 def campaign(ctx: core.Ctx, tier: str, shard: int, nshards: int) -> None:
     idx = 0
     for partial in DISABLED[:5]:
-        for via in ("render", "macro"):
+        for via in VIAS:
             idx += 1
             if idx % nshards == shard:
                 ctx.run({"kind": "include-disabled", "partial": partial, "via": via})
@@ -214,11 +240,13 @@ def finish_kwargs(ctx: core.Ctx, tier: str) -> dict:
         "rule": (
             "Callers = a prelude binding any of four names by assign, capture, an enclosing for loop, an enclosing "
             "with block or a counter, then {% render 'p' %} (plain, with ... as, for ... as, literal keyword "
-            "arguments) or {% macro %}/{% call %}, then a postlude printing the four names; the partial/macro body "
+            "arguments) or {% macro %}/{% call %} (positional or keyword arguments, some parameters omitted with or "
+            "without a default), then a postlude printing the four names; the partial/macro body "
             "reads, assigns, captures, increments and loops over the same names between sentinels. R1: the text "
             "between the sentinels is identical for two different preludes (arguments and globals fixed). R2: the "
-            "postlude output is identical when the body's assignments are removed. R3: include inside a rendered "
-            "partial or macro body raises DisabledTagError. Non-trivial = a prelude binds a name the body reads, or "
+            "postlude output is identical when the body's assignments are removed. R3: include (directly, in a block, in a liquid tag, in a capture) "
+            f"inside a partial reached through any of {len(VIAS)} call forms (plain, keyword arguments, with/for with and "
+            "without alias, inside a caller's loop, through a second render, macro bodies) raises DisabledTagError. Non-trivial = a prelude binds a name the body reads, or "
             "the body assigns a name."
         ),
         "assumptions": ["state a 'render ... for' partial carries from one item to the next is not asserted"],
